@@ -23,7 +23,7 @@ echo "$ID: suite_ok=$SUITE_OK demo_with_change_exit=$WITH demo_without_change_ex
 if [ "$SUITE_OK" = true ] && [ $WITH -ne 0 ] && [ $WITHOUT -eq 0 ]; then
   D="$HERE/seeded/$ID"; mkdir -p "$D"
   cp "$SRC/patch.diff" "$D/"; cp "$SRC"/*_test.go "$D/"; [ -f "$SRC/NOTES.md" ] && cp "$SRC/NOTES.md" "$D/"
-  DET=$("$HERE/tools/eval_seed.sh" "$D" 2>&1 | grep -E "^C[0-9]+ " | awk '{print $1" "$2" "$3}' | sort -u | tr '\n' ';')
+  DET=$("$HERE/tools/eval_seed_scratch.sh" "$D" 2>&1 | grep -E "^C[0-9]+ " | awk '{print $1" "$2" "$3}' | sort -u | tr '\n' ';')
   python3 - "$D" "$ID" "$PROP" "$PKG" "$RUN" "$NEEDS" "$DET" <<'PY'
 import json,sys
 d,i,p,pkg,run,needs,det=sys.argv[1:8]
